@@ -299,4 +299,6 @@ def _match(key: str, m) -> bool:
         return table[k[2:]] not in m.flags
     if k.startswith("KEYWORD "):
         return key.split()[1] in m.flags
+    if k.startswith("UNKEYWORD "):
+        return key.split()[1] not in m.flags
     raise ValueError(key)
